@@ -519,6 +519,33 @@ func runC13(c *Ctx) {
 			}
 		}
 	})
+	// the warnings of a namespace update: every existing pod's violated controls, pods of one controller violating different
+	// controls, with the real evaluator (the reference is the model's dry run)
+	kn := AdmitKnobs{Kind: "ns", FaultPct: 0, SynPct: 0, SubPct: 0, Pods: func(r *Rng) []*corev1.Pod {
+		ps := genPopulation(r, 2+r.Intn(10), []string{"exrc"})
+		for _, p := range ps { // make the violations of the members of a group differ
+			switch r.Intn(5) {
+			case 0:
+				p.Spec.HostPID = true
+			case 1:
+				p.Spec.Containers[0].Ports = []corev1.ContainerPort{{ContainerPort: 80, HostPort: 80}}
+			case 2:
+				p.Spec.Volumes = []corev1.Volume{{Name: "hp", VolumeSource: corev1.VolumeSource{HostPath: &corev1.HostPathVolumeSource{Path: "/"}}}}
+			}
+		}
+		return ps
+	}}
+	admitSweep(c, sizes(c, 500, 10000), kn, "allowed code warnings", "allowed code warnings", nil, func(r *Rng, a *AdmitCase) {
+		nsMutate(r, a)
+		a.NS, a.User = "ns", "u"
+		a.Name = a.NS
+		if a.Obj.Kind == "namespace" {
+			a.Obj.NSName = a.NS
+		}
+		if a.Old.Kind == "namespace" {
+			a.Old.NSName = a.NS
+		}
+	})
 }
 
 // namesQuoted: `"name"` occurs in the text as a quoted list item (not inside an escaped or key="value" rendering).
@@ -573,7 +600,29 @@ func runC14(c *Ctx) {
 				ct.SecurityContext = &corev1.SecurityContext{}
 			}
 			ct.SecurityContext.Capabilities = &corev1.Capabilities{Add: []corev1.Capability{"SYS_ADMIN", "NET_RAW", "BPF", "NET_ADMIN"}[:1+r.Intn(4)], Drop: []corev1.Capability{"ALL"}}
+			if r.Bool() { // an allowed capability in front of the forbidden ones
+				ct.SecurityContext.Capabilities.Add = append([]corev1.Capability{"NET_BIND_SERVICE"}, ct.SecurityContext.Capabilities.Add...)
+			}
+			// several DISTINCT forbidden values of every kind a message lists as a set: their order in the text must be fixed
+			if i%2 == 0 {
+				ct.SecurityContext.SeccompProfile = &corev1.SeccompProfile{Type: []corev1.SeccompProfileType{"Unconfined", "Other", "runtimedefault", "Local"}[(j+i)%4]}
+				pm := []corev1.ProcMountType{"Unmasked", "Unmasked2", "default"}[(j+i)%3]
+				ct.SecurityContext.ProcMount = &pm
+				ct.SecurityContext.SELinuxOptions = &corev1.SELinuxOptions{Type: []string{"spc_t", "container_x", "Container_t"}[(j+i)%3], User: "u"}
+				ct.SecurityContext.AppArmorProfile = &corev1.AppArmorProfile{Type: []corev1.AppArmorProfileType{"Unconfined", "unconfined", "RuntimeDefaultX"}[(j+i)%3]}
+			}
 			ct.Ports = append(ct.Ports, corev1.ContainerPort{HostPort: int32(10 + r.Intn(90))}, corev1.ContainerPort{HostPort: int32(100 + r.Intn(900))})
+		}
+		if i%2 == 0 {
+			p.Spec.Volumes = append(p.Spec.Volumes, corev1.Volume{Name: "v-nfs", VolumeSource: corev1.VolumeSource{NFS: &corev1.NFSVolumeSource{Server: "s", Path: "/"}}},
+				corev1.Volume{Name: "v-hp", VolumeSource: corev1.VolumeSource{HostPath: &corev1.HostPathVolumeSource{Path: "/"}}},
+				corev1.Volume{Name: "v-git", VolumeSource: corev1.VolumeSource{GitRepo: &corev1.GitRepoVolumeSource{Repository: "r"}}},
+				corev1.Volume{Name: "v-rbd", VolumeSource: corev1.VolumeSource{RBD: &corev1.RBDVolumeSource{}}})
+			if p.Spec.SecurityContext == nil {
+				p.Spec.SecurityContext = &corev1.PodSecurityContext{}
+			}
+			p.Spec.SecurityContext.Sysctls = append(p.Spec.SecurityContext.Sysctls, corev1.Sysctl{Name: "kernel.msgmax", Value: "1"}, corev1.Sysctl{Name: "net.core.somaxconn", Value: "1"}, corev1.Sysctl{Name: "kernel.sem", Value: "1"})
+			p.Spec.SecurityContext.SeccompProfile = &corev1.SeccompProfile{Type: "Unconfined2"}
 		}
 		cp := p.DeepCopy()
 		m := pick(r, minors)
